@@ -57,7 +57,10 @@ func runC35(c *Ctx) {
 		c.R.Check("G-frame", name+"|allocation found", n == 1, c.pos(cm.Pos()), fmt.Sprintf("%d header-sized allocation(s)", n))
 		des := firstCall(cm, namedCall("Deserialize"))
 		c.G2("G-frame", name+"|checksum verified before decoding", cm, des, "hdr.Verify(payload) == nil", isErrNilOf(callPred(R{"p2p", "Header", "Verify"})))
-		c.G2("G-frame", name+"|payload fully read before decoding", cm, des, "io.ReadFull == nil", isErrNilOf(func(cmn *ssa.CallCommon) bool { f := cmn.StaticCallee(); return f != nil && f.String() == "io.ReadFull" }))
+		c.G2("G-frame", name+"|payload fully read before decoding", cm, des, "io.ReadFull == nil", isErrNilOf(func(cmn *ssa.CallCommon) bool {
+			f := cmn.StaticCallee()
+			return f != nil && f.String() == "io.ReadFull"
+		}))
 		c.G1s("G-frame", name+"|Deserialize checked", cm, "message.Deserialize", namedCall("Deserialize"), G1Opt{})
 		// Verify is applied to the buffer that was read and that is decoded
 		for _, v := range ssau.CallsIn(cm, callPred(R{"p2p", "Header", "Verify"})) {
@@ -78,7 +81,10 @@ func runC35(c *Ctx) {
 		}
 		c.G2("G-frame", "ReadMessage|header decoded before dispatch", rm, disp, "hdr.Deserialize == nil", isErrNilOf(callPred(R{"p2p", "Header", "Deserialize"})))
 		c.G2("G-frame", "ReadMessage|magic checked before dispatch", rm, disp, "hdr.Magic != magic rejects", condCmp(fieldIs("Header", "Magic"), func(v ssa.Value) bool { return paramNamed(v, "magic") }, token.EQL, true))
-		c.G2("G-frame", "ReadMessage|header fully read", rm, disp, "io.ReadFull == nil", isErrNilOf(func(cmn *ssa.CallCommon) bool { f := cmn.StaticCallee(); return f != nil && f.String() == "io.ReadFull" }))
+		c.G2("G-frame", "ReadMessage|header fully read", rm, disp, "io.ReadFull == nil", isErrNilOf(func(cmn *ssa.CallCommon) bool {
+			f := cmn.StaticCallee()
+			return f != nil && f.String() == "io.ReadFull"
+		}))
 	}
 	if hv := c.fn("p2p", "Header", "Verify"); hv != nil {
 		c.GuardSuccess("G-frame", "Header.Verify|checksum equality", hv, "bytes.Equal(header.Checksum, Sha256D(buf)[:4])", func(i *ssa.If) (bool, bool) {
@@ -101,9 +107,15 @@ func runC35(c *Ctx) {
 		}, G1Opt{})
 	}
 	if hd := c.fn("p2p", "Header", "Deserialize"); hd != nil {
-		rd := firstCall(hd, func(cmn *ssa.CallCommon) bool { f := cmn.StaticCallee(); return f != nil && f.String() == "encoding/binary.Read" })
+		rd := firstCall(hd, func(cmn *ssa.CallCommon) bool {
+			f := cmn.StaticCallee()
+			return f != nil && f.String() == "encoding/binary.Read"
+		})
 		c.G2("G-frame", "Header.Deserialize|command terminator required", hd, rd, "IndexByte(cmd, 0) < 0 rejects", condCmp(func(v ssa.Value) bool {
-			return ssau.IsCallTo(ssau.Unwrap(v), func(cmn *ssa.CallCommon) bool { f := cmn.StaticCallee(); return f != nil && f.String() == "bytes.IndexByte" })
+			return ssau.IsCallTo(ssau.Unwrap(v), func(cmn *ssa.CallCommon) bool {
+				f := cmn.StaticCallee()
+				return f != nil && f.String() == "bytes.IndexByte"
+			})
 		}, isConstInt(0), token.LSS, false))
 	}
 	if gc := c.fn("p2p", "Header", "GetCMD"); gc != nil {
@@ -118,7 +130,10 @@ func runC35(c *Ctx) {
 				}
 			}
 		}
-		noCut := len(ssau.CallsIn(gc, func(cmn *ssa.CallCommon) bool { f := cmn.StaticCallee(); return f != nil && strings.HasPrefix(f.String(), "bytes.Index") })) == 0
+		noCut := len(ssau.CallsIn(gc, func(cmn *ssa.CallCommon) bool {
+			f := cmn.StaticCallee()
+			return f != nil && strings.HasPrefix(f.String(), "bytes.Index")
+		})) == 0
 		c.R.Check("R-create", "Header.GetCMD|whole field minus trailing NULs", ok && noCut, c.pos(gc.Pos()), "the dispatched command must depend on every byte of the 12-byte field (a byte after an inner NUL must change the command)")
 	}
 	// createMessage functions
